@@ -26,6 +26,7 @@ func init() {
 				"site with its verdict; no source may reach a sink. This covers all recipes and streams, including rejected candidates.",
 			Rules: []string{
 				"R18.1 no tainted sink: no argument of an output call, panic operand, error-constructor argument or global store in package spg is tainted",
+				"R18.3 diagnostics carry counts and probabilities only: every operand of an output/log/write call in package spg is built from constants and numeric values (through formatting, concatenation, error construction); a non-constant string, character set, word or name is reported",
 				"R18.2 inventory: every sink site is listed with the taint verdict of each argument; floors on analysed sources (>=5) and sinks (>=15) prevent a vacuous pass",
 			},
 			Trusted:    append([]string{"foreign functions do not stash their arguments in global state that later reaches an output"}, commonTrusted...),
@@ -772,5 +773,130 @@ func runC18(p *core.Program, r *core.Report) {
 		} else {
 			r.Pass("R18.1", name, s.descr+": no argument derives from a draw", p.InstrPos(s.in), fmt.Sprintf("%d argument(s) inspected", len(s.args)))
 		}
+		// R18.3 what the library itself writes out (not what it returns in an error) is made of constant text,
+		// counts and probabilities only: a word of the list, a set of characters or a name is none of these
+		if s.kind == "output" || s.kind == "log" || s.kind == "write" {
+			var notNum []string
+			for i, a := range s.args {
+				if i == 0 && (strings.Contains(s.descr, "Fprint") || s.kind == "write") && !isStringOrBytes(a.Type()) {
+					continue // the writer operand
+				}
+				if why := diagUnclean(p, a, 0, map[ssa.Value]bool{}); why != "" {
+					notNum = append(notNum, fmt.Sprintf("argument %d: %s", i, why))
+				}
+			}
+			r.Check(len(notNum) == 0, "R18.3", name, s.descr+" writes constant text, counts and probabilities only", p.InstrPos(s.in), strings.Join(notNum, "; "))
+		}
 	}
+}
+
+func isStringOrBytes(t types.Type) bool {
+	switch u := t.Underlying().(type) {
+	case *types.Basic:
+		return u.Info()&types.IsString != 0
+	case *types.Slice:
+		b, ok := u.Elem().Underlying().(*types.Basic)
+		return ok && b.Kind() == types.Byte
+	}
+	return false
+}
+
+// diagUnclean returns "" when v is made of constants and numeric values only, else the reason it is not.
+func diagUnclean(p *core.Program, v ssa.Value, depth int, seen map[ssa.Value]bool) string {
+	if seen[v] {
+		return ""
+	}
+	seen[v] = true
+	if depth > 12 {
+		return "value too deeply derived: " + core.Describe(v)
+	}
+	if _, ok := v.(*ssa.Const); ok {
+		return ""
+	}
+	if b, ok := v.Type().Underlying().(*types.Basic); ok && b.Info()&(types.IsNumeric|types.IsBoolean) != 0 {
+		return ""
+	}
+	all := func(vs ...ssa.Value) string {
+		for _, x := range vs {
+			if w := diagUnclean(p, x, depth+1, seen); w != "" {
+				return w
+			}
+		}
+		return ""
+	}
+	switch x := v.(type) {
+	case *ssa.MakeInterface:
+		return all(x.X)
+	case *ssa.ChangeType:
+		return all(x.X)
+	case *ssa.ChangeInterface:
+		return all(x.X)
+	case *ssa.BinOp:
+		return all(x.X, x.Y)
+	case *ssa.Phi:
+		return all(x.Edges...)
+	case *ssa.Extract:
+		if c, ok := x.Tuple.(*ssa.Call); ok {
+			return diagCallUnclean(p, c, x.Index, depth, seen)
+		}
+	case *ssa.Call:
+		return diagCallUnclean(p, x, 0, depth, seen)
+	case *ssa.Slice:
+		// the packed variadic operands: every element stored into the backing array
+		if a, ok := x.X.(*ssa.Alloc); ok {
+			var vals []ssa.Value
+			okAll := true
+			for _, ref := range *a.Referrers() {
+				switch u := ref.(type) {
+				case *ssa.IndexAddr:
+					for _, r2 := range *u.Referrers() {
+						if st, ok := r2.(*ssa.Store); ok && st.Addr == u {
+							vals = append(vals, st.Val)
+						} else {
+							okAll = false
+						}
+					}
+				case *ssa.Slice:
+				default:
+					okAll = false
+				}
+			}
+			if okAll {
+				return all(vals...)
+			}
+		}
+	}
+	return "not a constant or a number: " + core.Describe(v) + " of type " + v.Type().String()
+}
+
+func diagCallUnclean(p *core.Program, c *ssa.Call, idx, depth int, seen map[ssa.Value]bool) string {
+	all := func(vs []ssa.Value) string {
+		for _, x := range vs {
+			if w := diagUnclean(p, x, depth+1, seen); w != "" {
+				return w
+			}
+		}
+		return ""
+	}
+	name := core.CallName(c)
+	switch {
+	case strings.HasPrefix(name, "fmt.Sprint"), name == "fmt.Errorf", name == "errors.New", strings.HasPrefix(name, "strconv.Format"),
+		name == "strconv.Itoa", name == "strconv.Quote", name == "strings.Repeat", name == "strings.TrimSpace":
+		return all(c.Call.Args)
+	case c.Call.IsInvoke() && c.Call.Method.Name() == "Error" && len(c.Call.Args) == 0:
+		return diagUnclean(p, c.Call.Value, depth+1, seen)
+	case name == "builtin:len", name == "builtin:cap":
+		return ""
+	}
+	if f := core.StaticCallee(c); f != nil && p.InLib(f) && f.Blocks != nil {
+		for _, ret := range core.Returns(f) {
+			if idx < len(ret.Results) {
+				if w := diagUnclean(p, ret.Results[idx], depth+1, seen); w != "" {
+					return w
+				}
+			}
+		}
+		return ""
+	}
+	return "result of " + name + " (" + c.Type().String() + ")"
 }
